@@ -24,6 +24,7 @@ case "$CFG" in
   coresimd)  FEAT="--features core-simd" ;;
   libm)      FEAT="--features libm" ;;
   assert)    FEAT="--features glam-assert" ;;
+  dbg-glam-assert) FEAT="--features debug-glam-assert"; BASE="-Zmir-opt-level=0 -Awarnings -Cdebug-assertions=on" ;;
   scalar-assert) FEAT="--features scalar-math,glam-assert" ;;
   coresimd-assert) FEAT="--features core-simd,glam-assert" ;;
   neon-assert) TARGET="--target aarch64-unknown-linux-gnu"; ZSTD="-Zbuild-std=core"; FEAT="--no-default-features --features libm,glam-assert" ;;
